@@ -57,6 +57,14 @@ func (c *VerifCtx) verifyFunction(ct *Contract) (res *FuncResult) {
 	}
 	env := &SpecEnv{vars: map[types.Object]Value{}, st: st0, old: st0}
 	bindStubParams(ct, info, env, args)
+	// package axioms (facts about package-level state established by init)
+	if ax := c.axioms[fn.Pkg.Pkg]; ax != nil {
+		for _, cl := range ax.Clauses {
+			g := ex.assumeSpec(cl.Exprs[0], c.infoOf[ax.StubObj.Pkg()], &SpecEnv{vars: map[types.Object]Value{}, st: st0, old: st0}, TrueT)
+			ex.assume(TrueT, g)
+			ex.note("axiom assumed: %s", cl.Text)
+		}
+	}
 	for _, cl := range ct.Clauses {
 		if cl.Kind != "requires" {
 			continue
